@@ -28,6 +28,9 @@ def dec(b):
 def script(h, fam):
     src = enc(h["src"]); out = []
     keys = h["keys"]
+    if fam == "c":
+        # the same document with CR LF line endings, through the string family: the answers must be those of the LF spelling (offsets counted in lines of two bytes)
+        src = src.replace(b"\n", b"\r\n"); fam = "s"
     def reads(sid):
         if fam in "ep":
             return [line("e_meta", 0, "has"), line("e_meta", 0, "keys")] + [line("e_meta", 0, "val", sx(enc(k))) for k in keys]
@@ -68,17 +71,24 @@ def to_trace(h, evs, fam):
     """recorded events -> MetadataTrace events (projection: which key id a query used; body = text after the reported end)"""
     tr = [dict(e="reset"), dict(e="load", doc=h["doc"], src=h["src"], fam=fam)]
     text = enc(h["src"]); ui = 0
+    crlf = fam == "c"
+    if crlf: text = text.replace(b"\n", b"\r\n")
     keyid = {enc(k).decode("latin-1"): i + 1 for i, k in enumerate(h["keys"])}
     for ev in evs:
-        if ev.get("e") == "conv" and fam == "s":
+        if ev.get("e") == "conv" and fam in ("s", "c"):
             hp = Head(); hp.feed(dec((ev.get("out") or "").encode("latin-1")))
             tr.append(dict(e="head", null=ev["null"], pairs=hp.pairs))
             continue
         if ev.get("e") != "meta": continue
         op = ev["op"]
         if op == "has":
-            body = re.sub(rb"^([ \t]*\n)+", b"", text[ev["end"]:]) if ev["end"] <= len(text) else b"<end beyond text>"          # (the line(s) that separate block and body)
-            tr.append(dict(e="has", has=ev["has"], end=ev["end"], body=dec(body)))
+            body = re.sub(rb"^([ \t]*\r?\n)+", b"", text[ev["end"]:]) if ev["end"] <= len(text) else b"<end beyond text>"          # (the line(s) that separate block and body)
+            end = ev["end"]
+            if crlf:
+                # back to the LF spelling the specification speaks of: the offset minus the carriage returns before it; the body without them
+                end = ev["end"] - text[:ev["end"]].count(b"\r") if ev["end"] <= len(text) else ev["end"]
+                body = body.replace(b"\r\n", b"\n")
+            tr.append(dict(e="has", has=ev["has"], end=end, body=dec(body)))
         elif op == "keys":
             tr.append(dict(e="keys", res=dec((ev.get("res") or "").encode("latin-1")) if ev.get("res") is not None else "NULL"))
         elif op == "val":
@@ -127,11 +137,12 @@ def run(tier, seed):
         hs += g2.printed
     hists = uniq(h0 + h1 + hs)
     exe = build.build_harness("asan"); cli = build.build_cli()
-    fams = ["s", "d", "e", "p"]
+    fams = ["s", "d", "e", "p", "c"]
     segs = []; owners = []
     for i, h in enumerate(hists):
         for f in fams:
             if f != "e" and len(h["upds"]) > 0 and i % 2 and f == "d": continue
+            if f == "c" and i % 3: continue
             segs.append(["seg\tmeta", "wantout\t1"] + script(h, f)); owners.append((i, f))
     # the caller of a re-used engine owns the text: parse document A, put document B of the same length (other keys, other values) in its place, query
     bylen = {}
